@@ -28,6 +28,7 @@ import time
 from . import build, pool, tlc
 
 VERIF = "/verif"
+OUT = os.environ.get("WV_OUT", VERIF)  # evidence/replays root (redirected by the mutation tool only)
 SCRATCH = os.environ.get("WV_SCRATCH", "/var/tmp/whverif")
 
 
@@ -59,13 +60,13 @@ def _sc_hash(sc):
 
 
 def write_evidence(prop, tier, seed, level, coverage, assumptions, wall, violations):
-    os.makedirs(os.path.join(VERIF, "evidence"), exist_ok=True)
+    os.makedirs(os.path.join(OUT, "evidence"), exist_ok=True)
     ev = {
         "property_id": prop, "tier": tier, "seed": seed, "level": level,
         "coverage": coverage, "assumptions": assumptions, "wall_s": round(wall, 2),
         "violations": violations,
     }
-    path = os.path.join(VERIF, "evidence", f"{prop}.json")
+    path = os.path.join(OUT, "evidence", f"{prop}.json")
     tmp = path + ".tmp"
     with open(tmp, "w") as fh:
         json.dump(ev, fh, indent=1, sort_keys=True)
@@ -169,7 +170,7 @@ def _run(mod, ctx, replay, selftest):
         print(f"KNOWN-FINDING: property={prop} clause={clause} {sig} ({len(tids)} cases this run)")
     rc = 0
     if violations:
-        rdir = os.path.join(VERIF, "replays", prop)
+        rdir = os.path.join(OUT, "replays", prop)
         os.makedirs(rdir, exist_ok=True)
         seen_sig = set()
         for tid, clause, sig in violations:
